@@ -212,7 +212,7 @@ def opts_tag(fields):
     return hashlib.sha1(s.encode()).hexdigest()[:8]
 
 
-def make_match(text, offset, length, tag, cfg, word=None):
+def make_match(text, offset, length, tag, cfg, word=None, label=None):
     beg = max(0, offset - 40)
     end = min(len(text), offset + length + 40)
     pre = '...' if beg > 0 else ''
@@ -221,10 +221,11 @@ def make_match(text, offset, length, tag, cfg, word=None):
     q1, q2 = ('“', '”') if cfg.get('nonascii', True) else ('"', '"')
     frag = text[offset:offset + length]
     m = {
-        'message': 'Possible spelling mistake found: ' + q1 + frag + q2
+        'message': 'Possible spelling mistake found: ' + q1
+                   + (label if label is not None else frag) + q2
                    + ' [' + tag + ']',
         'shortMessage': 'Spelling mistake',
-        'replacements': [{'value': frag.upper()}, {'value': 'naïve'},
+        'replacements': [{'value': frag.upper().replace('\n', ' ')}, {'value': 'naïve'},
                          {'value': 'x<y&z'}],
         'offset': offset,
         'length': length,
@@ -270,6 +271,12 @@ def build_answer(text, language, tag, cfg):
             matches.append(make_match(text, o, len(w), tag, cfg, w))
             if w in cfg.get('dup', []):
                 matches.append(make_match(text, o, len(w), tag, cfg, w))
+        for (w1, w2) in cfg.get('phrases', []):
+            # a match from one word to another one, possibly across a line break
+            o1, o2 = text.find(w1), text.find(w2)
+            if 0 <= o1 < o2 and o2 + len(w2) - o1 < 300:
+                matches.append(make_match(text, o1, o2 + len(w2) - o1, tag, cfg,
+                                          label=w1 + '+' + w2))
     return {
         'software': {'name': 'LanguageTool', 'version': '4.7',
                      'buildDate': '2019-09-28 10:09', 'apiVersion': 1,
@@ -477,6 +484,12 @@ def build_textgears_answer(text, tag, cfg):
                 errs.append({'offset': o, 'length': len(t), 'bad': t,
                              'type': 'found: "%s" [%s]' % (t, tag),
                              'better': [t.upper(), 'naïve']})
+        for (w1, w2) in cfg.get('phrases', []):
+            o1, o2 = text.find(w1), text.find(w2)
+            if 0 <= o1 < o2 and o2 + len(w2) - o1 < 300:
+                errs.append({'offset': o1, 'length': o2 + len(w2) - o1,
+                             'bad': w1, 'better': ['x'],
+                             'type': 'found: "%s+%s" [%s]' % (w1, w2, tag)})
     return {'result': True, 'errors': errs, 'score': 50}
 
 
